@@ -99,7 +99,8 @@ CHECKS["C05"] = {
         "thorough": [{"pkg": "internal/pfcp", "entries": ["ZZ_C05_*"], "witnesses": 8, "max_paths": 2000000}],
     },
     "covers": {"all": ["ZZ_C05_Modify:C05.mod.done", "ZZ_C05_Delete:C05.del.done", "ZZ_C05_Assoc:C05.assoc.done", "ZZ_C05_ReportRsp:C05.reportrsp.done",
-                       "ZZ_C05_Establish:C05.est.done", "ZZ_C05_Reports:C05.reports.done", "ZZ_C05_Takeover:C05.takeover.done"]},
+                       "ZZ_C05_Establish:C05.est.done", "ZZ_C05_Reports:C05.reports.done", "ZZ_C05_Takeover:C05.takeover.done",
+                       "ZZ_C05_DeleteReuseReassoc:C05.reuse2.done"]},
     "bounds": {
         "quick": "frame check around one handler step: bystander session B (rules of all five kinds, one buffered packet, UR-SEQN 1) and acting session A on the same or the other node whose five rule ids and CP SEID are symbolic and may equal B's; steps: Modification with one Create/Update/Remove/Query IE of any kind and symbolic id, Deletion followed by SEID reuse, Association Setup of either node, SEID-0 report response, Establishment, kernel buffer/usage notification, takeover followed by re-association of any of three node ids",
         "thorough": "same (the single-step bound is already complete over ids and SEIDs)",
@@ -129,7 +130,7 @@ CHECKS["C08"] = {
     },
     "covers": {"all": ["ZZ_C08_Heartbeat:C08.hb.done", "ZZ_C08_AssocNoNodeID:C08.assoc-nonode.done", "ZZ_C08_Establish:C08.est.done",
                        "ZZ_C08_Establish:C08.est.early-return", "ZZ_C08_SessionLevel:C08.sess.live", "ZZ_C08_SessionLevel:C08.sess.notfound",
-                       "ZZ_C08_SessionLevel:C08.sess.bad-nodeid"]},
+                       "ZZ_C08_SessionLevel:C08.sess.bad-nodeid", "ZZ_C08_Retransmission:C08.rtx.done"]},
     "bounds": {
         "quick": "one or two requests per run: Heartbeat + Association Setup (either peer), Association Setup without Node ID, Establishment (known/unknown node, with/without Node ID and CP F-SEID, 0..2 Create PDRs each with/without a UE IPv4 address, symbolic PDR ids and CP SEID) followed by a Modification to the returned UP SEID, Modification/Deletion/Modification-with-undecodable-Node-ID addressed by an unconstrained 64-bit header SEID from either peer; sequence numbers symbolic 24 bit; start instant 2026-10-01",
         "thorough": "same with three start instants (NTP second 1, 2026-10-01, last second of NTP era 0)",
